@@ -210,6 +210,6 @@ def AppDir.eofOk (x : AppDir) : Bool := x.opened && x.fin && decide (x.nread = x
 
 /-- terminal connection errors the abstract stack allows between two honest endpoints: application close, or
 loss of the only path (idle timeout / persistent loss).  Never a transport error (`no_error_from_tampering`). -/
-def allowedTerm (k : String) : Bool := k == "app" || k == "quic:NoViablePath" || k == "quic:None"
+def allowedTerm (k : String) : Bool := k == "app" || k == "quic:Application" || k == "quic:NoViablePath" || k == "quic:None"
 
 end GmQuic.Net
